@@ -3,7 +3,8 @@
     field insertion orders, constructors and Type::from_str): equal instances must compare equal, hash alike,
     match each other, and answer every query like the specification (whose unions are sets; TLC checks
     FoldsOrderInsensitive on it).
-(b) program level: programs are parsed and run K times in each of 3 processes; the canonical outcomes
+(b) program level: programs are parsed and run K times in each of 3 processes (which meet the programs in
+    different orders: the outcome must not depend on the work the process did before); the canonical outcomes
     (accepted?, static type, value / error, log) are consumed by the trace specification Trace_Det.tla whose
     write-once map rejects a second, different outcome for the same program."""
 import json
@@ -77,20 +78,26 @@ def run(tier):
     work = C.workdir("det")
     src = os.path.join(work, "in.ndjson")
     C.run_vh(["gen", str(n), src], env_extra={"VERIF_SEED": str(C.seed() * 1000 + 5)})
-    c11 = L.run_suite(chk, "c11", tier)
+    # the suites' cases: iterator pipelines (c11), evaluation order incl. struct / tuple / array / call operands
+    # with effects (c07), scopes, closures, modules and imports incl. files shared between programs (c06),
+    # cells and aliases (c13); positive cases only
+    every = {"c11": 8, "c07": 2, "c06": 1, "c13": 8} if tier == "quick" else {"c11": 1, "c07": 1, "c06": 1, "c13": 1}
     cases = os.path.join(work, "cases.ndjson")
     with open(cases, "w") as f:
         f.write(open(src).read())
-        c11_cases = os.path.join(os.path.dirname(c11["events_path"]), "c11_cases.ndjson")
-        for i, line in enumerate(open(c11_cases)):
-            if i % (4 if tier == "quick" else 1) == 0:
-                f.write(line)
+        for suite in ("c11", "c07", "c06", "c13"):
+            r_s = L.run_suite(chk, suite, tier)
+            path = os.path.join(os.path.dirname(r_s["events_path"]), suite + "_cases.ndjson")
+            for i, line in enumerate(open(path)):
+                if i % every[suite] == 0 or '"import' in line:
+                    f.write(line)
         for e in EXTRA:
             f.write(json.dumps(e) + "\n")
     recs = os.path.join(work, "records.ndjson")
     with open(recs, "w") as f:
-        for proc in range(3):
-            rc, txt = C.run_vh(["det", cases, str(k), "p%d-" % proc], timeout=3000)
+        # every process meets the programs in another order: an outcome must not depend on the work done before
+        for proc, order in enumerate(("fwd", "rev", "shuf")):
+            rc, txt = C.run_vh(["det", cases, str(k), "p%d-" % proc, order], timeout=3000)
             f.write(txt)
     records = C.read_ndjson(recs)
     # TLC does not need the structured copy
@@ -116,7 +123,7 @@ def run(tier):
     cov["evaluations"] = len(records) + r["evaluations"]
     cov["distinct_nontrivial"] = progs + r["universe"]
     cov["rule"] = ("(a) %d types x %d independently built instances each: equality, hashing, mutual matches, all queries; "
-                   "(b) %d programs (generated + iterator suite + hand-written union/struct cases) x %d runs x 3 processes; "
+                   "(b) %d programs (generated + cases of the iterator, evaluation-order, scope/module/import and cell suites + hand-written union/struct cases) x %d runs x 3 processes, each meeting the programs in another order (forwards, backwards, shuffled); "
                    "distinct = programs / types; non-trivial = accepted by the checker" % (r["universe"], r["instances_per_type"], progs, k))
     cov["runs_recorded"] = len(records)
     chk.sample({"program": EXTRA[0]["id"], "note": "five pulls of [1, 2.5, \"s\"]~ in every run"})
